@@ -22,6 +22,9 @@ static trompeloeil::reporter_func make_reporter(int gen) {
   return [gen](trompeloeil::severity s, char const* file, unsigned long line, std::string const& msg) {
     bool fatal = s == trompeloeil::severity::fatal;
     if (g_world) g_world->raw.push_back({fatal, file ? file : "", line, msg, gen, g_world->depth});
+    // the armed reporter (user code) stands down when a sequence violation is reported: the end-of-life report of an expectation
+    // named in one is the single place where the statements leave the answer open, and the harness does not build on an open answer
+    if (fatal && g_world && msg.rfind("Sequence mismatch", 0) == 0) g_world->armed = 0;
     if (fatal) throw Fatal{};
     if (g_world && std::string(file ? file : "") != "probe") g_world->fire_armed();  // user code in the reporter (OP_ARM_REPORTER)
   };
